@@ -412,6 +412,8 @@ type udpDriver struct {
 	late []*lateSock
 	// onLate judges a late datagram.
 	onLate func(ls *lateSock, raw []byte)
+	// kind is the layout of the next sentinel.
+	kind warmKind
 }
 
 type lateSock struct {
@@ -482,7 +484,7 @@ func (d *udpDriver) probe(bt *built, px *pexp) (o observation) {
 	// The sentinel: a well-formed message of other traffic from the same
 	// socket.  When its answer is back the server has had its chance to
 	// answer the probe.
-	w := d.e.nextWarm(warmSame)
+	w := d.e.nextWarm(d.kind)
 	gotOther := false
 	for attempt := 0; attempt < d.e.attempts(d.path) && !gotOther; attempt++ {
 		if err = c.Send(w); err != nil {
@@ -499,7 +501,7 @@ func (d *udpDriver) probe(bt *built, px *pexp) (o observation) {
 
 			if len(dg) >= 2 && dg[0] == w[0] && dg[1] == w[1] {
 				gotOther = true
-				d.e.judgeOther("udp", "sentinel-after-probe", w, dg)
+				d.e.judgeOther("udp", "after-probe/"+warmKindNames[d.kind], w, dg)
 
 				break
 			}
@@ -578,11 +580,16 @@ func (d *udpDriver) close() {
 // --- TCP / DoT --------------------------------------------------------------
 
 type streamDriver struct {
-	e    *env
-	b    *tbench.Bench
-	cur  *tbench.StreamClient
+	e   *env
+	b   *tbench.Bench
+	cur *tbench.StreamClient
+	// side is the connection of another client that performs a complete
+	// exchange while a segmented probe is pausing between two segments.
+	side *tbench.StreamClient
 	path string
 	tls  bool
+	// alone: no other client ever talks to the listener (fresh instance).
+	alone bool
 }
 
 func (d *streamDriver) conn() (c *tbench.StreamClient, err error) {
@@ -686,7 +693,11 @@ func (d *streamDriver) probeOnce(bt *built, px *pexp) (o observation) {
 		}
 
 		if s.pause > 0 {
-			time.Sleep(s.pause)
+			// In the middle of the pause another client makes a complete
+			// exchange on its own connection.
+			time.Sleep(s.pause / 2)
+			d.sideExchange()
+			time.Sleep(s.pause / 2)
 		}
 	}
 
@@ -753,7 +764,50 @@ func (d *streamDriver) probeOnce(bt *built, px *pexp) (o observation) {
 	return o
 }
 
-func (d *streamDriver) close() { d.drop() }
+// sideExchange performs one exchange of other traffic on the side connection
+// and judges the answer on its own bytes.
+func (d *streamDriver) sideExchange() {
+	if d.alone {
+		return
+	}
+
+	for attempt := 0; attempt < 2; attempt++ {
+		if d.side == nil {
+			var err error
+			if d.tls {
+				d.side, err = d.b.DialDoT()
+			} else {
+				d.side, err = d.b.DialTCP()
+			}
+
+			if err != nil {
+				d.side = nil
+				d.e.infraFailure("stream-dial", err.Error())
+
+				return
+			}
+		}
+
+		w := d.e.nextWarm(warmSame)
+		res := d.side.Exchange(w, d.e.wait(d.path))
+		if res.Outcome == tbench.Answered {
+			d.e.judgeOther(d.path, "other-client-during-segment-pause", w, res.Responses[0])
+
+			return
+		}
+
+		_ = d.side.Close()
+		d.side = nil
+	}
+}
+
+func (d *streamDriver) close() {
+	d.drop()
+	if d.side != nil {
+		_ = d.side.Close()
+		d.side = nil
+	}
+}
 
 // --- DoQ --------------------------------------------------------------------
 
@@ -761,7 +815,10 @@ type doqDriver struct {
 	e    *env
 	b    *tbench.Bench
 	cur  *tbench.QUICClient
+	side *tbench.QUICClient
 	path string
+	// alone: no other client ever talks to the listener (fresh instance).
+	alone bool
 }
 
 func (d *doqDriver) conn() (c *tbench.QUICClient, err error) {
@@ -842,7 +899,29 @@ func (d *doqDriver) probeOnce(bt *built) (o observation) {
 
 	var res tbench.Result
 	if len(bt.segs) > 1 {
-		res = doqSegmented(c, bt.segs, d.e.wait(d.path))
+		res = doqSegmented(c, bt.segs, d.e.wait(d.path), func() {
+			// Another client's complete exchange (own connection) while the
+			// probe's stream is half written.
+			if d.alone {
+				return
+			}
+
+			if d.side == nil || !d.side.Alive() {
+				var dErr error
+				d.side, dErr = d.b.DialDoQ()
+				if dErr != nil {
+					d.side = nil
+
+					return
+				}
+			}
+
+			w := d.e.nextWarm(warmSame)
+			sr := d.side.Exchange(w, d.e.wait(d.path))
+			if sr.Outcome == tbench.Answered && len(sr.Responses) > 0 {
+				d.e.judgeOther(d.path, "other-client-during-segment-pause", w, sr.Responses[0])
+			}
+		})
 	} else {
 		res = c.ExchangeRaw(bt.stream(), true, d.e.wait(d.path))
 	}
@@ -873,7 +952,7 @@ func (d *doqDriver) probeOnce(bt *built) (o observation) {
 
 // doqSegmented writes the stream bytes in several parts with pauses, sends
 // FIN and reads the stream to its end.  (tbench writes a stream in one piece.)
-func doqSegmented(c *tbench.QUICClient, segs []seg, wait time.Duration) (res tbench.Result) {
+func doqSegmented(c *tbench.QUICClient, segs []seg, wait time.Duration, during func()) (res tbench.Result) {
 	ctx, cancel := context.WithTimeout(context.Background(), wait)
 	defer cancel()
 
@@ -893,7 +972,9 @@ func doqSegmented(c *tbench.QUICClient, segs []seg, wait time.Duration) (res tbe
 		}
 
 		if s.pause > 0 {
-			time.Sleep(s.pause)
+			time.Sleep(s.pause / 2)
+			during()
+			time.Sleep(s.pause / 2)
 		}
 	}
 
@@ -951,7 +1032,13 @@ func doqErr(err error, data []byte) (res tbench.Result) {
 	return res
 }
 
-func (d *doqDriver) close() { d.drop() }
+func (d *doqDriver) close() {
+	d.drop()
+	if d.side != nil {
+		_ = d.side.Close()
+		d.side = nil
+	}
+}
 
 // --- DoH --------------------------------------------------------------------
 
